@@ -55,21 +55,52 @@ class IndexMap:
             raise Unsupported('index key')
         return IdxV(key)
 
+    def acc_attr(self, x, st, name):
+        if name == 'get':
+            return ('accmethod', self, 'get')
+        raise Unsupported('attribute %s of IndexMap' % name)
+
+    def acc_call(self, x, st, name, args, kwargs):
+        if name == 'get' and 1 <= len(args) <= 2 and isinstance(args[0], T):
+            return Alt([(self.acc.member(args[0].items), IdxV(args[0])), (z3.Not(self.acc.member(args[0].items)), args[1] if len(args) == 2 else NONE)])
+        raise Unsupported('IndexMap.%s' % name)
+
+
+def _idx_alts(key):
+    """[(guard, IdxV)] of an index value that may be a guarded union (dict.get result under an `is not None` test)"""
+    if isinstance(key, IdxV):
+        return [(z3.BoolVal(True), key)]
+    if isinstance(key, Alt):
+        out = []
+        for g, v in key.alts:
+            if isinstance(v, IdxV):
+                out.append((g, v))
+            elif not isinstance(v, type(NONE)):
+                return None
+        return out
+    return None
+
 
 class Signs:
     def __init__(self):
         self.toggles, self.bad = [], []
 
     def acc_index(self, x, st, key):
-        if not isinstance(key, IdxV) or len(key.loc.items) != 3:
+        alts = _idx_alts(key)
+        if not alts or any(len(k.loc.items) != 3 for _, k in alts):
             raise Unsupported('signs indexed by something other than stabilizer_index[location]')
-        return SG(*[Z(c) for c in key.loc.items])
+        r = SG(*[Z(c) for c in alts[-1][1].loc.items])
+        for g, k in alts[-2::-1]:
+            r = z3.If(g, SG(*[Z(c) for c in k.loc.items]), r)
+        return r
 
     def acc_store(self, x, st, key, val):
-        if not isinstance(key, IdxV):
+        alts = _idx_alts(key)
+        if not alts:
             raise Unsupported('signs stored at something other than stabilizer_index[location]')
-        cur = SG(*[Z(c) for c in key.loc.items])
-        self.toggles.append((st.live, key.loc, Z(val), cur))
+        for g, k in alts:
+            cur = SG(*[Z(c) for c in k.loc.items])
+            self.toggles.append((z3.And(st.live, g), k.loc, Z(val), cur))
 
     def acc_attr(self, x, st, name):
         if name == 'copy':
@@ -430,6 +461,20 @@ def bounded(tier, seed):
         ev += 1
         if w:
             viol.append(dict(obligation='C10.bounded.track[%s,%s]' % (dec, cls), input=dict(decoder=dec, code=cls, size=list(size), z_errors=[list(q) for q in errq], seam=w['seam']), detail=w['why']))
+    # geometry clause alone on shape-covering lattices (every ordering of unequal extents: a bound written with the wrong axis shows only there)
+    from bounded.util import supported
+    shapes = sorted(set(itertools.permutations((2, 3, 4))) | set(itertools.permutations((1, 2, 3))) | set(itertools.permutations((2, 2, 4))) | set(itertools.permutations((1, 3, 1))))
+    for dec, cls, _ in NATIVE:
+        for size in shapes:
+            if not supported(cls, size) or time.time() - t0 > (60 if tier == 'quick' else 600):
+                continue
+            try:
+                found = native_geom(dec, cls, size)
+            except Exception:       # noqa   (size outside the family the class accepts)
+                continue
+            ev += 1; nt.add((dec, cls, size, 'geom'))
+            for q, why in found[:3]:
+                viol.append(dict(obligation='C10.bounded.geom[%s,%s]' % (dec, cls), input=dict(decoder=dec, code=cls, size=list(size), edge=list(map(int, q)), seam=is_seam(size, q)), detail=why))
     for dec, cls, sizes in NATIVE:
         for size in sizes[: (2 if tier == 'quick' else 3)]:
             for q, why in native_geom(dec, cls, size):
